@@ -23,8 +23,14 @@ fn pk_str(pk: &[u8]) -> String {
 async fn flush(n: usize) -> bool {
     let before = vh::UPDATES_FLUSHED.load(SeqCst);
     vh::FLUSH_GEN.fetch_add(1, SeqCst);
+    let mut verif_bumped = Instant::now();
     let deadline = Instant::now() + Duration::from_secs(30);
     while vh::UPDATES_FLUSHED.load(SeqCst) < before + n as u64 {
+        if verif_bumped.elapsed() > Duration::from_millis(1500) {
+            // a loop that started after the bump took the bumped value as its baseline: bump again
+            vh::FLUSH_GEN.fetch_add(1, SeqCst);
+            verif_bumped = Instant::now();
+        }
         if Instant::now() > deadline {
             return false;
         }
